@@ -97,21 +97,38 @@ def facts_path(config, repo=REPO):
     d = os.path.join(WORK, "facts", h)
     os.makedirs(d, exist_ok=True)
     out = os.path.join(d, config + ".jsonl")
-    lock = open(os.path.join(d, config + ".lock"), "w")
-    fcntl.flock(lock, fcntl.LOCK_EX)
-    try:
-        if not os.path.exists(out):
-            extract(config, out, repo)
-            _prune(os.path.join(WORK, "facts"), keep=h)
-    finally:
-        fcntl.flock(lock, fcntl.LOCK_UN)
-        lock.close()
+    for attempt in (0, 1):
+        os.makedirs(d, exist_ok=True)
+        try:
+            os.utime(d)             # mark as in use (see _prune)
+        except OSError:
+            pass
+        lock = open(os.path.join(d, config + ".lock"), "w")
+        fcntl.flock(lock, fcntl.LOCK_EX)
+        try:
+            if not os.path.exists(out):
+                try:
+                    extract(config, out, repo)
+                except RuntimeError:
+                    # a concurrent run on another tree may have pruned this directory mid-extraction: retry once
+                    if attempt == 0 and not os.path.isdir(d):
+                        continue
+                    raise
+                _prune(os.path.join(WORK, "facts"), keep=h)
+            break
+        finally:
+            fcntl.flock(lock, fcntl.LOCK_UN)
+            lock.close()
     return out
 
 
 def _prune(root, keep, max_keep=6):
     try:
+        # never touch a directory used in the last half hour: concurrent runs on other trees may be extracting into
+        # it or reading from it
+        now = time.time()
         ds = [(os.path.getmtime(os.path.join(root, d)), d) for d in os.listdir(root) if d != keep]
+        ds = [(m, d) for m, d in ds if now - m > 1800]
         ds.sort(reverse=True)
         for _, d in ds[max_keep:]:
             shutil.rmtree(os.path.join(root, d), ignore_errors=True)
